@@ -491,6 +491,17 @@ def c14_directed_specs(corp, hash_seeds):
     ks = [e for e in corp.by_family.get("K", []) if e.get("n", 0) == 0 and "_shifted" not in e["id"]]
     for ci, chunk in enumerate(_chunks(ks, 14)):
         sess([req(e) for e in chunk], "K-pass-%d" % ci)
+    # the same under helper faults: every fault point meets the daemon at least once, each followed by a fault-free request
+    simple = [e for e in ks if e["id"] in ("K/same_call_body0", "K/same_body_args", "K/hash_body", "K/returns_float", "K/prints", "K/two_calls")]
+    pts = [p for p in FAULT_POINTS if p["kind"] != "ok"]
+    for ci, chunk in enumerate(_chunks(pts, 9)):
+        lines = []
+        for j, fp in enumerate(chunk):
+            e = simple[(ci + j) % len(simple)]
+            lines.append(req(e, helpers=[dict(fp)]))
+            lines.append(req(simple[(ci + j + 1) % len(simple)]))
+        sess(lines, "K-faults-%d" % ci)
+        sess([dict(l) for l in lines], "K-faults-%d-pipelined" % ci, client={"mode": "pipelined", "window": 3, "eager_end": True}, end="eof")
     junk = []
     for jid, raw in C.family_J(0):
         if isinstance(raw, dict):
